@@ -86,10 +86,16 @@ type Grp struct {
 type FuncItem struct {
 	Wrapped bool // true: g.Add(arg); false: group-form method chain building arg (a *Stmt)
 	A       Arg
+	// Hoist (with Wrapped): a re-entrant callback.  The item is g.Add(arg) like any wrapped item,
+	// but the real interpreter performs it from INSIDE the callback of the next item's inner
+	// group (e.g. the condition callback of g.IfFunc), i.e. while that item is being built and
+	// before it is appended.  The model treats it as a plain Add at its place in the list.
+	Hoist bool
 }
 type GrpFunc struct {
 	Api   string
 	Items []FuncItem
+	pre   func() // real interpreter only: run at the start of the callback (re-entrant Add)
 }
 type Custom struct {
 	Open, Close, Sep string
@@ -100,6 +106,7 @@ type CustomFunc struct {
 	Open, Close, Sep string
 	Multi            bool
 	Items            []FuncItem
+	pre              func()
 }
 type Tag struct{ KV [][2]string } // in the order given; keys distinct
 type Comment struct{ Text string }
@@ -149,7 +156,9 @@ func serArg(b *strings.Builder, a Arg) {
 
 func serFuncItems(b *strings.Builder, items []FuncItem) {
 	for _, it := range items {
-		if it.Wrapped {
+		if it.Hoist {
+			b.WriteString(" h")
+		} else if it.Wrapped {
 			b.WriteString(" a")
 		} else {
 			b.WriteString(" m")
